@@ -18,15 +18,16 @@ type c04Case struct {
 	WantStore map[string]interface{} // id -> expected JSON (nil = must be absent)
 	Front     map[string][]string    // collection id -> ids that must be at the front (any order), before the old items
 	Untouched []string               // ids that must not be written at all
+	Members   map[string][]string    // collection id -> ids it must hold afterwards, as a set (the statement fixes no position)
 	Delivery  *M                     // expected automatic response: {"type","actor","to","recipients"}
 	NoDeliver bool
 	Info      M
 }
 
 func genC04(g *prng.R) c04Case {
-	typ := pick(g, "Create", "Update", "Delete", "Follow", "Accept", "Add", "Remove", "Like", "Announce", "Like", "Announce", "Add")
+	typ := pick(g, "Create", "Update", "Delete", "Follow", "Accept", "Add", "Remove", "Like", "Announce", "Like", "Announce", "Add", "Follow", "Remove", "Reject", "Undo", "Block")
 	mode := pick(g, "none", "wrapped", "other")
-	cs := c04Case{Typ: typ, Mode: mode, WantStore: map[string]interface{}{}, Front: map[string][]string{}, Info: M{}}
+	cs := c04Case{Typ: typ, Mode: mode, WantStore: map[string]interface{}{}, Front: map[string][]string{}, Members: map[string][]string{}, Info: M{}}
 	sc := inboxScenario(nil, nil)
 	cs.Sc = sc
 	actID := fmt.Sprintf("%s/act/%s%d", R1, strings.ToLower(typ), g.Intn(100000))
@@ -100,14 +101,45 @@ func genC04(g *prng.R) c04Case {
 		if !names {
 			target = pick(g, bob(), R2+"/users/zed")
 		}
-		var objs A = A{target}
+		var tv interface{} = target
+		if g.Chance(1, 4) {
+			tv = M{"type": "Person", "id": target}
+		}
+		var objs A = A{tv}
 		if g.Chance(1, 3) {
-			objs = append(objs, R2+"/users/zed")
+			// another followed actor, before or after the inbox's own
+			if g.Bool() {
+				objs = append(objs, R2+"/users/zed")
+			} else {
+				objs = A{R2 + "/users/zed", tv}
+				if g.Bool() {
+					objs = A{R2 + "/users/zed", bob(), tv}
+				}
+			}
 		}
 		act["object"] = objs
+		if g.Chance(1, 3) {
+			// a Follow usually carries its own addressing; the response is
+			// addressed to the Follow's actors all the same
+			act["to"] = A{target}
+			if g.Bool() {
+				act["cc"] = A{R2 + "/users/onlooker", Public}
+			}
+			if g.Chance(1, 3) {
+				act["bto"] = R2 + "/users/hidden-onlooker"
+			}
+		}
 		sc.Cfg.OnFollow = g.Intn(3)
-		old := A{R2 + "/users/oldfollower"}
-		sc.Store[alice()+"/followers"] = M{"@context": AS, "type": "Collection", "id": alice() + "/followers", "items": old}
+		fcol := M{"@context": AS, "type": "Collection", "id": alice() + "/followers"}
+		switch g.Intn(4) {
+		case 0: // nobody follows yet: the collection has no member property
+		case 1:
+			fcol["items"] = A{R2 + "/users/oldfollower", followers[g.Intn(len(followers))]} // follows again
+			cs.Info["refollow"] = true
+		default:
+			fcol["items"] = A{R2 + "/users/oldfollower"}
+		}
+		sc.Store[alice()+"/followers"] = fcol
 		cs.Info["on_follow"] = sc.Cfg.OnFollow
 		cs.Info["names_inbox_actor"] = names
 		if names && sc.Cfg.OnFollow != 0 {
@@ -122,7 +154,7 @@ func genC04(g *prng.R) c04Case {
 			}
 			cs.Delivery = &M{"type": rt, "actor": alice(), "to": followers, "recipients": rec}
 			if sc.Cfg.OnFollow == 1 {
-				cs.Front[alice()+"/followers"] = followers
+				cs.Members[alice()+"/followers"] = append(append([]string{}, idsOf(fcol["items"])...), followers...)
 			} else {
 				cs.Untouched = append(cs.Untouched, alice()+"/followers")
 			}
@@ -166,15 +198,31 @@ func genC04(g *prng.R) c04Case {
 				acc = append([]string{stranger}, acc...)
 			}
 		}
-		if len(acc) == 1 {
-			act["actor"] = acc[0]
+		var accA A
+		for _, x := range acc {
+			if g.Chance(1, 4) {
+				accA = append(accA, M{"type": "Person", "id": x})
+			} else {
+				accA = append(accA, x)
+			}
+		}
+		if len(accA) == 1 {
+			act["actor"] = accA[0]
 		} else {
-			act["actor"] = stringsToA(acc)
+			act["actor"] = accA
 		}
 		cs.Info["accept_verified"] = verified
-		sc.Store[alice()+"/following"] = M{"@context": AS, "type": "Collection", "id": alice() + "/following", "items": A{R2 + "/users/old"}}
+		gcol := M{"@context": AS, "type": "Collection", "id": alice() + "/following"}
+		switch g.Intn(4) {
+		case 0: // follows nobody yet
+		case 1:
+			gcol["items"] = A{R2 + "/users/old", acc[0]} // accepted once before
+		default:
+			gcol["items"] = A{R2 + "/users/old"}
+		}
+		sc.Store[alice()+"/following"] = gcol
 		if verified {
-			cs.Front[alice()+"/following"] = acc
+			cs.Members[alice()+"/following"] = append(append([]string{}, idsOf(gcol["items"])...), acc...)
 		} else {
 			cs.Untouched = append(cs.Untouched, alice()+"/following")
 			cs.Info["expect_error"] = true
@@ -204,9 +252,19 @@ func genC04(g *prng.R) c04Case {
 					items = append(items, o)
 				}
 			}
-			items = append(items, R2+"/notes/keep")
+			if !g.Chance(1, 4) {
+				items = append(items, R2+"/notes/keep") // else: the target may be empty, or be emptied
+			}
 			if g.Bool() {
 				items = append(items, objIDs[0])
+			}
+			if owned && g.Chance(1, 4) {
+				// members of the stored collection in embedded form
+				for k := range items {
+					if g.Bool() {
+						items[k] = M{"type": "Note", "id": items[k]}
+					}
+				}
 			}
 			var tid string
 			if owned {
@@ -216,24 +274,24 @@ func genC04(g *prng.R) c04Case {
 				if ordered {
 					member, ct = "orderedItems", "OrderedCollection"
 				}
-				var want A
+				_, _ = member, ct
+				var want []string
 				if typ == "Add" {
-					want = append(append(A{}, items...), stringsToA(objIDs)...)
+					want = append(idsOf(items), objIDs...)
 				} else {
-					for _, it := range items {
-						if !contains(objIDs, it.(string)) {
+					for _, it := range idsOf(items) {
+						if !contains(objIDs, it) {
 							want = append(want, it)
 						}
 					}
 				}
-				w := M{"type": ct, "id": tid}
-				if len(want) > 0 {
-					w[member] = want
-				}
-				cs.WantStore[tid] = w
+				cs.Members[tid] = want
 			} else {
 				tid = fmt.Sprintf("%s/collections/foreign%d", R2, i)
-				doc := M{"@context": AS, "type": "Collection", "id": tid, "items": items}
+				doc := M{"@context": AS, "type": "Collection", "id": tid}
+				if len(items) > 0 {
+					doc["items"] = items
+				}
 				sc.Remote[tid] = sim.RemoteSpec{Doc: doc}
 				if g.Bool() {
 					sc.Store[tid] = doc // a cached copy of foreign data must not be modified either
@@ -261,7 +319,13 @@ func genC04(g *prng.R) c04Case {
 				base := note(id, nil)
 				want := note(id, nil)
 				colID := id + "/" + member
-				switch g.Intn(3) {
+				switch g.Intn(5) {
+				case 3: // present, unordered, no entry yet
+					base[member] = M{"type": "Collection", "id": colID}
+					want[member] = M{"type": "Collection", "id": colID, "items": actID}
+				case 4: // present, ordered, no entry yet
+					base[member] = M{"type": "OrderedCollection", "id": colID}
+					want[member] = M{"type": "OrderedCollection", "id": colID, "orderedItems": actID}
 				case 0: // absent
 					want[member] = M{"type": "Collection", "items": actID}
 				case 1:
@@ -287,6 +351,31 @@ func genC04(g *prng.R) c04Case {
 			}
 		}
 		act["object"] = objs
+	case "Reject":
+		// no default effect beyond telling the application
+		act["object"] = L + "/act/f1"
+		sc.Store[L+"/act/f1"] = withCtx(M{"type": "Follow", "id": L + "/act/f1", "actor": alice(), "object": carol()})
+		sc.Store[alice()+"/following"] = M{"@context": AS, "type": "Collection", "id": alice() + "/following", "items": A{R2 + "/users/old"}}
+		cs.Untouched = append(cs.Untouched, alice()+"/following", L+"/act/f1")
+	case "Undo":
+		// carol undoes her own Like: nothing is stored or sent by default
+		like := M{"type": "Like", "id": R1 + "/act/like-undone", "actor": carol(), "object": L + "/notes/l0"}
+		ownedNote(sc, 0, nil)
+		sc.Remote[R1+"/act/like-undone"] = sim.RemoteSpec{Doc: withCtx(like)}
+		if g.Bool() {
+			act["object"] = like
+		} else {
+			act["object"] = R1 + "/act/like-undone"
+		}
+	case "Block":
+		act["object"] = pick(g, alice(), bob())
+	}
+	// one delivery in fifteen is a repeat: the inbox already lists the id, so
+	// there is no effect, no callback and nothing sent
+	if g.Chance(1, 15) {
+		sc.Inboxes = map[string][]interface{}{aliceIn(): {R2 + "/act/earlier", actID}}
+		sc.Store[actID] = withCtx(act) // as recorded when it first arrived
+		cs.Info["redelivered"] = true
 	}
 	switch mode {
 	case "wrapped":
@@ -295,6 +384,9 @@ func genC04(g *prng.R) c04Case {
 		// the override of the type under test, alone or somewhere in a list
 		// of overrides for other types (handled by default or not)
 		sc.Cfg.FedOther = otherList(g, typ, true)
+		// the application may have filled in the wrapped callback as well:
+		// the override replaces the default effect, that callback included
+		sc.Cfg.FedWrapped = g.Chance(1, 3)
 	case "none":
 		// overrides for *other* types only must leave this type's default effect alone
 		if g.Chance(1, 3) {
@@ -345,8 +437,8 @@ func stringsToA(s []string) A {
 func init() {
 	checks["c04"] = func(id string) int {
 		r := newRun(id, "fault_enumeration")
-		r.Rule = "inbox POSTs of each handled type (Create, Update, Delete, Follow, Accept, Add, Remove, Like, Announce) with 1..3 objects/targets/actors as IRIs or embedded values, owned or not, ordered or unordered collections, likes/shares absent / Collection / OrderedCollection, Accepts by a subset of 1..3 followed actors with or without a never-followed co-actor, OnFollow in {nothing, accept, reject}, and for every type {no application callback, wrapped callback, overriding 'other' callback}; a subset also under every single fault; the byte-level store after the request, the deliveries and the callback log are compared with a per-type reference model; non-trivial = default side effect expected and observed; distinct by scenario and fault plan"
-		r.Assumptions = []string{"collections are compared as sequences with new entries first; order among several new entries is free", "likes/shares given as a bare IRI on the stored object are not generated"}
+		r.Rule = "inbox POSTs of each handled type (Create, Update, Delete, Follow, Accept, Reject, Add, Remove, Like, Announce, Undo, Block) with 1..3 objects/targets/actors as IRIs or embedded values, owned or not, ordered or unordered collections, likes/shares absent / Collection / OrderedCollection, Accepts by a subset of 1..3 followed actors with or without a never-followed co-actor, OnFollow in {nothing, accept, reject}, and for every type {no application callback, wrapped callback, overriding 'other' callback}; a subset also under every single fault; the byte-level store after the request, the deliveries and the callback log are compared with a per-type reference model; non-trivial = default side effect expected and observed; distinct by scenario and fault plan"
+		r.Assumptions = []string{"likes / shares are compared as sequences with the new entry first; followers, following and Add / Remove targets as sets (the statement fixes no position there)", "likes/shares given as a bare IRI on the stored object are not generated"}
 		judge := func(cs c04Case, sc *sim.Scenario, res *sim.Result) {
 			r.Eval(1)
 			observeLog(r, res)
@@ -389,6 +481,25 @@ func init() {
 					}
 				}
 			}
+			if cs.Info["redelivered"] == true && !faulted {
+				var real []string
+				for _, c := range storeChanges(res.Before, res.After) {
+					if c != actID {
+						real = append(real, c)
+					}
+				}
+				if len(real) > 0 || cbIdx >= 0 || otherIdx >= 0 {
+					viol("duplicate-side-effects", "pub.(*sideEffectActor).PostInbox", cs.Typ+" seen before", fmt.Sprintf("the inbox already listed %s, yet: store changes %v, wrapped callback %v, override %v", actID, real, cbIdx >= 0, otherIdx >= 0))
+				}
+				for _, e := range res.Log {
+					if e.Kind == "tp.BatchDeliver" || e.Kind == "tp.Deliver" {
+						viol("duplicate-side-effects", e.Site, cs.Typ+" seen before: delivery", "a delivery happened for an activity the inbox already listed")
+					}
+				}
+				r.Count("redeliveries_judged", 1)
+				r.NonTrivial(fmt.Sprintf("%s|redelivered", sc.Name))
+				return
+			}
 			for _, u := range cs.Untouched {
 				if !reflect.DeepEqual(res.Before.Store[u], res.After.Store[u]) {
 					viol("untouchable-modified", "pub.FederatingWrappedCallbacks."+strings.ToLower(cs.Typ), cs.Typ, fmt.Sprintf("%s changed", u))
@@ -398,11 +509,11 @@ func init() {
 				// an Accept the stored Follow does not back: the default
 				// effect must fail, so nothing is added and no wrapped
 				// callback runs
-				if rp.Err == "" {
-					viol("unverified-accept-succeeded", "pub.FederatingWrappedCallbacks.accept", "accepting actor never followed", "the request succeeded although an accepting actor is not among the stored Follow's objects")
-				}
-				if cbIdx >= 0 {
-					viol("callback-after-failure", res.Log[cbIdx].Site, cs.Typ+" unverified", "wrapped callback ran for an Accept that was not verified")
+				// (that such a request must fail is C06's clause; here: no
+				// effect, and no "default effect succeeded" callback after a
+				// reported failure)
+				if rp.Err != "" && cbIdx >= 0 {
+					viol("callback-after-failure", res.Log[cbIdx].Site, cs.Typ+" unverified", "wrapped callback ran for an Accept that was refused")
 				}
 			}
 			if cs.Mode == "other" {
@@ -417,9 +528,12 @@ func init() {
 					viol("override-did-not-replace-default", "pub.FederatingWrappedCallbacks.callbacks", cs.Typ, fmt.Sprintf("default effect visible although an 'other' callback was supplied: %v", real))
 				}
 				for _, e := range res.Log {
-					if e.Kind == "tp.BatchDeliver" {
+					if e.Kind == "tp.BatchDeliver" || e.Kind == "tp.Deliver" {
 						viol("override-did-not-replace-default", e.Site, cs.Typ+" delivery", "a delivery happened although an 'other' callback was supplied")
 					}
+				}
+				if cbIdx >= 0 {
+					viol("override-did-not-replace-default", res.Log[cbIdx].Site, cs.Typ+" wrapped callback", "the wrapped callback of the replaced default effect ran although an 'other' callback was supplied")
 				}
 				if !faulted && rp.Err == "" && otherIdx < 0 {
 					viol("override-not-invoked", "pub.(*sideEffectActor).PostInbox", cs.Typ, "the 'other' callback was not invoked")
@@ -453,8 +567,36 @@ func init() {
 					}
 				}
 			}
+			if !faulted && rp.Err != "" && cs.Info["expect_error"] != true {
+				viol("request-failed", "pub.FederatingWrappedCallbacks."+strings.ToLower(cs.Typ), cs.Typ, "a well-formed "+cs.Typ+" failed without any injected fault: "+rp.Err)
+			}
 			if faulted || rp.Err != "" {
 				return
+			}
+			nCb := 0
+			for _, e := range res.Log {
+				if e.Kind == "cb.fed.wrapped."+cs.Typ {
+					nCb++
+				}
+			}
+			if nCb > 1 {
+				viol("wrapped-callback-not-invoked", "pub.FederatingWrappedCallbacks."+strings.ToLower(cs.Typ), cs.Typ+" twice", fmt.Sprintf("the wrapped application callback ran %d times", nCb))
+			}
+			// frame: nothing but what the model names may change
+			for _, c := range storeChanges(res.Before, res.After) {
+				_, w := cs.WantStore[c]
+				_, f := cs.Front[c]
+				_, m := cs.Members[c]
+				if w || f || m || c == actID || contains(res.Issued, c) || strings.HasPrefix(c, "outbox:") && cs.Delivery != nil {
+					continue
+				}
+				viol("untouchable-modified", "pub.FederatingWrappedCallbacks."+strings.ToLower(cs.Typ), cs.Typ+" bystander", fmt.Sprintf("%s changed although the %s does not name it", c, cs.Typ))
+			}
+			for col, want := range cs.Members {
+				after := collectionItems(res.After, col)
+				if !sameSet(after, want) {
+					viol("store-delta", "pub.FederatingWrappedCallbacks."+strings.ToLower(cs.Typ), cs.Typ+" members", fmt.Sprintf("%s holds %v, want the members %v", col, after, sortedCopy(uniq(sortedCopy(want)))))
+				}
 			}
 			if cs.Mode == "wrapped" && cbIdx < 0 {
 				viol("wrapped-callback-not-invoked", "pub.FederatingWrappedCallbacks."+strings.ToLower(cs.Typ), cs.Typ, "the wrapped application callback was not invoked after a successful default effect")
@@ -484,7 +626,7 @@ func init() {
 			// deliveries
 			var batches []sim.Event
 			for _, e := range res.Log {
-				if e.Kind == "tp.BatchDeliver" {
+				if e.Kind == "tp.BatchDeliver" || e.Kind == "tp.Deliver" {
 					batches = append(batches, e)
 				}
 			}
@@ -515,9 +657,21 @@ func init() {
 						objs := asList(pm["object"])
 						var fol M
 						mustRoundTrip(sc.Requests[0].Body, &fol)
+						// hidden recipients never leave the server, those of
+						// an embedded object included (C03)
+						delete(fol, "bto")
+						delete(fol, "bcc")
+						if len(objs) == 1 {
+							if s, isIRI := objs[0].(string); isIRI && s == fol["id"] {
+								objs[0] = stripCtx(fol) // naming the Follow by its id is "an Accept of that Follow" too
+							}
+						}
 						if len(objs) != 1 || !looseEqual(stripCtx(fol), objs[0], false) {
 							viol("response-shape", b.Site, "object", fmt.Sprintf("object=%s want the Follow %s", jstr(pm["object"]), jstr(fol)))
 						}
+					}
+					if b.Args[0] != aliceOut() {
+						viol("response-shape", b.Site, "sent from", fmt.Sprintf("the response was handed to the transport of %s, want the actor's outbox %s", b.Args[0], aliceOut()))
 					}
 					if !sameSet(b.Args[1:], d["recipients"].([]string)) {
 						viol("response-recipients", b.Site, "recipients", fmt.Sprintf("recipients=%v want %v", b.Args[1:], d["recipients"]))
